@@ -207,7 +207,7 @@ impl Prop for C11Prop {
         vec![Section {
             name: "random",
             kind: SectionKind::Random {
-                cases: tier.pick(400, 5_000),
+                cases: tier.pick(400, 3_000),
                 maxlen: 6000,
             },
             exhaustive: false,
